@@ -91,13 +91,14 @@ def slice_obligations(ck):
             continue
         i1 = [c for c in log if c[0] == "interp1d"]
         def effective(kw):
-            """interp1d options that leave it the default linear, range-checked interpolant (left implicit or spelled out; copy / assume_sorted do not change values)"""
+            """interp1d options that leave it the default linear, range-checked interpolant (left implicit or spelled out; copy does not change values, assume_sorted=True does on an axis that is not stored ascending)"""
             kw = dict(kw)
             kind = kw.pop("kind", "linear")
             be = kw.pop("bounds_error", None)
             fv = kw.pop("fill_value", None)
             kw.pop("copy", None)
-            kw.pop("assume_sorted", None)
+            if kw.pop("assume_sorted", False):
+                return False  # skips the sort: another function on an axis that is not stored ascending
             nan_fill = fv is None or (isinstance(fv, float) and fv != fv)
             return kind == "linear" and (be is None or be is True) and nan_fill and not kw
 
@@ -355,8 +356,8 @@ def bounded_native(ck):
         name_sets = [["e"], ["log_e_nu", "beta_rad"], ["E", "e", "t"], ["Z", "z", "w", "x y"], ["a", "b"]]
         for trial, names in enumerate(name_sets * (1 if ck.tier == "quick" else 4)):
             shape = tuple(int(rng.integers(2, 5)) for _ in names)
-            for dt in (np.float64, np.float32, np.int64, np.int32):
-                data = (rng.normal(size=shape) * 100).astype(dt)
+            for dt in (np.float64, np.float32, np.int64, np.int32) + ((np.uint16, np.int8, np.uint32) if trial == 1 else ()):
+                data = (np.abs(rng.normal(size=shape)) * 50).astype(dt) if np.dtype(dt).kind == "u" or dt is np.int8 else (rng.normal(size=shape) * 100).astype(dt)
                 axes = [np.sort(rng.normal(size=s)).astype(np.float64 if j % 2 == 0 else np.float32) for j, s in enumerate(shape)]
                 g = NssGrid(data, axes, list(names))
                 for fmt, ext in (("hdf5", "h5"), ("fits", "fits")):
@@ -439,6 +440,27 @@ def bounded_native(ck):
                                                   "input": {"names": names, "axis": names[0], "value": repr(float(val_)), "node": repr(float(ax_[j_])), "weight of the next node": float(w_)}, "observed": {"max abs error": float(np.abs(np.asarray(s_.data, float) - want_).max())}})
                             except Exception as ex:
                                 fails.append({"obligation": "bounded.slice", "clause": "slicing next to a node succeeds", "input": {"names": names, "value": repr(float(val_))}, "observed": repr(ex)[:160]})
+                # an axis stored in descending order (depth / altitude style): nodes and in-between coordinates still give the stored sub-grid / the
+                # blend of the two neighbouring sub-grids
+                if dt is np.float64 and len(names) > 1:
+                    axd = [a.astype(np.float64) for a in axes]
+                    axd[0] = axd[0][::-1].copy()
+                    if len(np.unique(axd[0])) == len(axd[0]):
+                        gd = NssGrid(data, axd, list(names))
+                        for j_ in range(len(axd[0]) - 1):
+                            n += 1
+                            try:
+                                mid = 0.25 * axd[0][j_] + 0.75 * axd[0][j_ + 1]
+                                s_n = np.asarray(grid_slice_interp(gd, axd[0][j_], 0).data, dtype=float)
+                                s_m = np.asarray(grid_slice_interp(gd, mid, 0).data, dtype=float)
+                                want_m = 0.25 * np.take(data, j_, axis=0) + 0.75 * np.take(data, j_ + 1, axis=0)
+                                if not (np.allclose(s_n, np.take(data, j_, axis=0), rtol=1e-12, atol=1e-9) and np.allclose(s_m, want_m, rtol=1e-12, atol=1e-9)):
+                                    fails.append({"obligation": "bounded.slice", "clause": "slicing along an axis stored in descending order: stored sub-grid at a node, blend of the two neighbours in between",
+                                                  "input": {"names": names, "axis": names[0], "axis values": axd[0].tolist(), "node": j_}, "observed": {"max abs error at the node": float(np.abs(s_n - np.take(data, j_, axis=0)).max()), "in between": float(np.abs(s_m - want_m).max())}})
+                                    break
+                            except Exception as ex:
+                                fails.append({"obligation": "bounded.slice", "clause": "slicing along an axis stored in descending order succeeds", "input": {"names": names, "axis values": axd[0].tolist()}, "observed": repr(ex)[:160]})
+                                break
                 # slices: exact at nodes, blend in between (also for integer grids)
                 k = int(rng.integers(0, len(names)))
                 ax = axes[k].astype(np.float64)
